@@ -27,9 +27,12 @@ Verdict(rec) ==
   /\ (W => V(tid, "C04", ok))
   /\ ((W /\ ~ok) => Out(<<"DIAG", tid, "C04", "error." \o rec.mode, <<rec.err>>>>))
   /\ ((W /\ ok) =>
-        /\ V(tid, "C01", C01(b0, b1, rec.ru) /\ PhasesKeepMeaning(b0, rec.phases) /\ PipelineShape(rec.phases, doc, rec.phases # <<>>))
-        /\ (PhasesKeepMeaning(b0, rec.phases) \/ Out(<<"DIAG", tid, "C01", "phase." \o rec.mode, <<rec.phases[CHOOSE i \in BrokenPhases(b0, rec.phases) : \A j \in BrokenPhases(b0, rec.phases) : i <= j].ev>> >>))
-        /\ (PipelineShape(rec.phases, doc, rec.phases # <<>>) \/ Out(<<"DIAG", tid, "C01", "pipeline-shape." \o rec.mode, <<>> >>))
+        /\ V(tid, "C01", C01(b0, b1, rec.ru))
+        \* L1 (phase contracts): reported as notes - they speak about the hook points, not about what Flatten returns
+        /\ (rec.phases = <<>> \/ V(tid, "L1", PhasesKeepMeaning(b0, rec.phases) /\ PipelineShape(rec.phases, doc, TRUE) /\ LemmasHold(rec.phases, xk)))
+        /\ (PhasesKeepMeaning(b0, rec.phases) \/ Out(<<"DIAG", tid, "L1", "meaning-after." \o rec.phases[CHOOSE i \in BrokenPhases(b0, rec.phases) : \A j \in BrokenPhases(b0, rec.phases) : i <= j].ev \o "." \o rec.mode, <<>> >>))
+        /\ (rec.phases = <<>> \/ PipelineShape(rec.phases, doc, TRUE) \/ Out(<<"DIAG", tid, "L1", "pipeline-shape." \o rec.mode, <<>> >>))
+        /\ (LemmasHold(rec.phases, xk) \/ Out(<<"DIAG", tid, "L1", "lemma-after." \o rec.phases[CHOOSE i \in BrokenLemmas(rec.phases, xk) : \A j \in BrokenLemmas(rec.phases, xk) : i <= j].ev \o "." \o rec.mode, <<>> >>))
         /\ (C01_Paths(b0, b1)          \/ LET s == CHOOSE s \in (KidsOf(RootOf(b0)) \cup KidsOf(RootOf(b1))) \ Sections : ~SameSection(b0, b1, s)
                                           IN Out(<<"DIAG", tid, "C01", "paths." \o rec.mode, WhyNot(b0, <<"root", s>>, b1, <<"root", s>>)>>))
         /\ (C01_Root(b0, b1)           \/ Out(<<"DIAG", tid, "C01", "rootattrs." \o rec.mode, <<>> >>))
@@ -41,8 +44,7 @@ Verdict(rec) ==
                                                    IF n \in Defs(RootOf(b1)) THEN WhyNot(b0, DefPos(n), b1, DefPos(n)) ELSE <<"lost", n>> >>))
         /\ (C01_Marker(b0, b1)         \/ Out(<<"DIAG", tid, "C01", "marker." \o rec.mode, <<>> >>)))
   /\ ((W /\ ok /\ flat) =>
-        /\ V(tid, "C02", C02(doc, xk) /\ LemmasHold(rec.phases, xk))
-        /\ (LemmasHold(rec.phases, xk) \/ Out(<<"DIAG", tid, "C02", "lemma." \o rec.mode, <<rec.phases[CHOOSE i \in BrokenLemmas(rec.phases, xk) : \A j \in BrokenLemmas(rec.phases, xk) : i <= j].ev>> >>))
+        /\ V(tid, "C02", C02(doc, xk))
         /\ Diag(tid, "C02", "kind." \o rec.mode, { <<h[1], h[2]>> : h \in { x \in RootHolders(doc, xk) : x[2] # "schema" } })
         /\ Diag(tid, "C02", "form." \o rec.mode, { x[2] : x \in { y \in RefsIn(doc) : ~CanonicalRef(doc, y[2]) } }))
   /\ ((W /\ ok /\ rec.mode = "full") =>
